@@ -17,7 +17,8 @@ def pipeline(tier, rep):
     nbad = sum(1 for c in calls if c["bad"])
     rep.cov["modules"]["Contract"].update({"calls": len(calls), "violating": nbad, "valid": len(calls) - nbad})
     rep.sample({"module": "Contract", "call": next(c for c in calls if c["bad"])})
-    variants = [("checks", []), ("safe", [])]
+    ub = ["-fsanitize=unreachable,return", "-fno-sanitize-recover=all"]   # see pipes/vector.py CONTRACT_FLAGS
+    variants = [("checks", ub), ("safe", ub)]
     if tier == "thorough":
         variants += [("checks_asan", ["-fsanitize=address,undefined", "-fno-sanitize-recover=all", "-g"])]
     jobs = []
